@@ -202,6 +202,60 @@ pub fn run(tier: Tier, seed: u64) -> i32 {
         }
     }
 
+    // (c'') the typed AAC configuration of the API: every object type x frequency index x channel layout is written by
+    // Mp4aBox::new as the AudioSpecificConfig the standard assigns to it (14496-3 Tables 1.17-1.19: mono..5.1 = 1..6,
+    // 7.1 = 7), and the typed accessors map the same codes back
+    {
+        let chans = [(ChannelConfig::Mono, 1u8), (ChannelConfig::Stereo, 2), (ChannelConfig::Three, 3), (ChannelConfig::Four, 4), (ChannelConfig::Five, 5), (ChannelConfig::FiveOne, 6), (ChannelConfig::SevenOne, 7)];
+        for a in (0..=255u8).filter(|v| AudioObjectType::try_from(*v).is_ok()) {
+            for f in 0..=12u8 {
+                for (cc, code) in chans.iter() {
+                    l.evaluations += 1;
+                    l.transitions += 2;
+                    let case = || json!({"engine": "api_aac", "object_type": a, "freq_index": f, "channel_layout": format!("{:?}", cc), "standard_code": code});
+                    let cfg = AacConfig { bitrate: 64000, profile: AudioObjectType::try_from(a).unwrap(), freq_index: SampleFreqIndex::try_from(f).unwrap(), chan_conf: *cc };
+                    let mut bytes = vec![];
+                    let wrote = guard(|| Mp4aBox::new(&cfg).write_box(&mut bytes));
+                    if !matches!(wrote, Ok(Ok(_))) {
+                        l.violations.push(Violation::new("C05", "api_aac_config_not_encodable", case()).obs(json!(format!("{:?}", wrote.map(|r| r.map_err(|e| e.to_string()))))));
+                        continue;
+                    }
+                    // independent walk: mp4a (8 + 28) -> esds (8 + 4) -> tag 3 (len, 3 bytes) -> tag 4 (len, 13 bytes) -> tag 5 (len) -> ASC
+                    let asc = (|| {
+                        let mut p = 8 + 28 + 8 + 4;
+                        for (tag, skip) in [(3u8, 3usize), (4, 13), (5, 0)] {
+                            if *bytes.get(p)? != tag {
+                                return None;
+                            }
+                            p += 1;
+                            while *bytes.get(p)? & 0x80 != 0 {
+                                p += 1;
+                            }
+                            p += 1 + skip;
+                        }
+                        bytes.get(p..).map(|s| s.to_vec())
+                    })();
+                    let got = asc.as_ref().filter(|s| s.len() >= 2).map(|s| {
+                        let mut padded = s.clone();
+                        padded.extend_from_slice(&[0; 6]);
+                        ref_asc(&padded)
+                    });
+                    if got != Some((a, f, *code)) {
+                        l.violations.push(Violation::new("C05", "api_aac_config_written_with_other_codes", case()).obs(json!({"asc_decoded_by_reference": format!("{:?}", got), "box_hex": hex(&bytes)})).exp(json!([a, f, code])));
+                        continue;
+                    }
+                    let back = guard(|| ChannelConfig::try_from(*code).ok());
+                    if back != Ok(Some(*cc)) || (*cc as u8) != *code {
+                        l.violations.push(Violation::new("C05", "api_channel_layout_code_mapping", case()).obs(json!(format!("{:?}", back))));
+                        continue;
+                    }
+                    l.nontrivial += 1;
+                    l.outcome("api_aac:agrees");
+                }
+            }
+        }
+    }
+
     // (d) codec parameters the API exposes = what the bitstream encodes, for every value of the packed bytes
     let third: Vec<u8> = (0..=255u8).collect();
     let asc_res = (0..65536usize)
